@@ -18,8 +18,8 @@ are run in float64/complex128).  Two refinements keep the oracle sound:
     parameters (every Squeezing2, degenerate GaussianTransform) have no unique decomposition:
     rounding noise selects the basis inside the degenerate subspace and the *truncated* evolution
     P U2 (P S1 P S2 P) U1 depends on it at the level of the truncation error.  Such programs are
-    compared within the norm-ledger bound of DESIGN §4 C01-B (measured by the step hook in both
-    runs); in compiled modes (no step boundaries observable) they are skipped and counted.
+    compared within the amplitude leaked at those gates (norms measured by the step hook in both
+    runs, see Ledger); in compiled modes (no step boundaries observable) they are skipped and counted.
   * get_phaseshifter_expectation_value is additionally compared with the value computed from
     the photon statistics of the same state at a large cutoff (tail mass added to the tolerance).
 """
@@ -56,7 +56,8 @@ RULE = (
 ASSUMPTIONS = [
     "NumPy connector results are the reference; a deviation is attributed to the other connector/mode",
     "rounding: 1e4 * eps * (basis cardinality or matrix size) * (instructions + 1) on quantities scaled to order one",
-    "truncated evolution with a non-unique Euler decomposition is only determined up to the ledger bound of DESIGN §4 C01-B",
+    "a gate with a non-unique Euler decomposition is applied as U2 (P S_1 P ... S_k P) U1 and every other step is a contraction "
+    "of the truncated space: two runs then differ by at most the leaked amplitudes sqrt(k (|in|^2 - |out|^2)) measured by the step hook",
     "photon statistics of the NumPy Gaussian state at a large cutoff (tail mass added to the tolerance) are an independent "
     "evaluation of Tr[rho exp(i sum phi_j n_j)]",
 ]
@@ -79,7 +80,7 @@ class Ctx:
         self.violations = []
         self.c = {k: 0 for k in REQUIRED}
         self.c.update({"programs": 0, "max_dev_over_tol": 0.0, "max_dev_exact_class": 0.0, "runs_by_sim_mode": {}, "by_observable": {},
-                       "ambiguous_euler_programs": 0, "ambiguous_bounded_comparisons": 0, "ambiguous_skipped_compiled": 0,
+                       "ambiguous_euler_programs": 0, "ambiguous_bounded_comparisons": 0, "ambiguous_skipped_compiled": 0, "ambiguous_trivial_bound": 0,
                        "max_dev_ambiguous_class": 0.0, "max_bound_ambiguous_class": 0.0, "unsupported": 0, "jit_tracer_errors": 0,
                        "polar_nonunitary": 0, "corrected_polar_reruns": 0, "corrected_polar_agree": 0,
                        "phaseshifter_reference_checks": 0, "phase_sensitive_inputs": 0, "complex_euler_gate_programs": 0,
@@ -167,17 +168,23 @@ def _install_reference_polar(conn):
     conn.polar = polar
 
 
-# ------------------------------------------------------------------------------ ledger (C01-B)
+# ------------------------------------------------------------------------------ ledger of ambiguous gates
 class Ledger:
-    """Norm ledger of one eager PureFock run: bound on |state - P(exact state)|."""
+    """Norms around the instructions whose Euler decomposition is not unique.
 
-    ACTIVE = ("Squeezing", "Squeezing2", "GaussianTransform", "QuadraticPhase", "Displacement", "PositionDisplacement",
-              "MomentumDisplacement", "CubicPhase")
+    Such an instruction is applied as  U2 (P S_1 P ... P S_k P) U1  (passive factors commute with the projector P on
+    total photon number, the k single-mode squeezers are applied one after the other on the truncated vector).  It
+    differs from the one-shot truncation P G P of the same gate G by at most the sum of the amplitudes leaked by the
+    individual factors, and sum_i leak_i <= sqrt(k * sum_i leak_i^2) = sqrt(k * (|phi_in|^2 - |phi_out|^2)).  All
+    other steps are identical contractions in both runs, so two runs that only differ in the basis chosen inside the
+    degenerate subspace end within  B_a + B_b,  B = sum over ambiguous instructions of that expression."""
 
-    def __init__(self):
+    def __init__(self, indices):
+        self.indices = set(indices)
         self.b = 0.0
         self.norm_in = None
         self.ok = True
+        self.seen = 0
 
     @staticmethod
     def _norm(state):
@@ -187,24 +194,19 @@ class Ledger:
             return None
 
     def on_step_pre(self, run, idx, ins, state, shots):
-        if run.depth == 0:
+        if run.depth == 0 and idx in self.indices:
             self.norm_in = self._norm(state)
 
     def on_step_post(self, run, idx, ins, state, shots, sub, exc):
-        if run.depth != 0 or exc is not None:
-            return
-        name = type(ins).__name__
-        if name not in self.ACTIVE:
+        if run.depth != 0 or exc is not None or idx not in self.indices:
             return
         n_out = self._norm(state)
         if n_out is None or self.norm_in is None or not np.isfinite(n_out):
             self.ok = False
             return
-        k = max(1, len(ins.modes)) if name in ("GaussianTransform", "Squeezing2") else 1
-        n_ref = min(self.norm_in, n_out, 1.0)
-        for _ in range(k):
-            x = max(0.0, n_ref - self.b)
-            self.b += float(np.sqrt(max(0.0, 1.0 - x * x)))
+        self.seen += 1
+        k = max(1, len(ins.modes))
+        self.b += float(np.sqrt(k * max(0.0, self.norm_in ** 2 - n_out ** 2)))
 
 
 # ------------------------------------------------------------------------------ documents
@@ -225,9 +227,9 @@ def _blocks_of(idoc):
 
 
 def euler_profile(doc):
-    """(ambiguous, complex_gates): does some Euler-decomposed gate have repeated non-zero squeezing
+    """(ambiguous, complex_gates): indices of Euler-decomposed gates with repeated non-zero squeezing
     parameters (non-unique decomposition); indices of Euler gates with complex blocks."""
-    ambiguous = False
+    ambiguous = []
     complex_gates = []
     for i, idoc in enumerate(doc["ins"]):
         if idoc["t"] not in EULER_GATES:
@@ -237,8 +239,8 @@ def euler_profile(doc):
         r = np.arcsinh(s)
         for a in range(len(r)):
             for b in range(a + 1, len(r)):
-                if max(r[a], r[b]) > 1e-9 and abs(r[a] - r[b]) < 1e-4:
-                    ambiguous = True
+                if max(r[a], r[b]) > 1e-9 and abs(r[a] - r[b]) < 1e-4 and i not in ambiguous:
+                    ambiguous.append(i)
         if max(float(np.abs(np.imag(P)).max()), float(np.abs(np.imag(A)).max())) > 1e-13 and float(s.max()) > 1e-13:
             complex_gates.append(i)
     return ambiguous, complex_gates
@@ -297,6 +299,7 @@ def observe(pq, doc, state, extra, xp=None, compiled=False):
     if sim == "purefock":
         o["state_vector"] = state.state_vector
         o["fock_probabilities"] = state.fock_probabilities
+        o["tensor_representation"] = state.get_tensor_representation()
         for m in range(d):
             o["mean_position[%d]" % m] = state.mean_position(m)
         qm, qphi = extra.get("quad_mode", 0), extra.get("quad_phi", 0.3)
@@ -340,7 +343,7 @@ def observe(pq, doc, state, extra, xp=None, compiled=False):
     return o
 
 
-def run_mode(pq, doc, mode, extra, fix_polar=False, ledger=False):
+def run_mode(pq, doc, mode, extra, fix_polar=False, ledger=None):
     """Executes `doc` in `mode`. Returns {"obs": {name: ndarray}, "b": float|None} or {"error": exc, "tb": str}."""
     from vf.gen import programs as G
 
@@ -354,7 +357,7 @@ def run_mode(pq, doc, mode, extra, fix_polar=False, ledger=False):
                 from vf.monitors import stephook
 
                 hook = stephook.get().install()
-                led = hook.subscribe(Ledger())
+                led = hook.subscribe(Ledger(ledger))
             sim = build_sim(pq, doc, conn)
             prog = G.build_program(pq, doc["ins"])
             state = sim.execute(prog, shots=1).state
@@ -365,7 +368,7 @@ def run_mode(pq, doc, mode, extra, fix_polar=False, ledger=False):
             if doc["sim"] == "gaussian" and angles is not None:
                 o["phaseshifter_expectation"] = state.get_phaseshifter_expectation_value(list(angles))
             obs = {k: _arr(v) for k, v in o.items()}
-            return {"obs": obs, "b": (led.b if led is not None and led.ok else None)}
+            return {"obs": obs, "b": (led.b if led is not None and led.ok and led.seen == len(led.indices) else None)}
         skel, leaves = lift(doc)
         names = []
 
@@ -492,7 +495,7 @@ def compare_case(ctx, pq, case):
     ctx.evals += 1
     ctx.c["programs"] += 1
     n_ins = len(doc["ins"])
-    ambiguous, complex_gates = (False, [])
+    ambiguous, complex_gates = ([], [])
     if sim == "purefock":
         ambiguous, complex_gates = euler_profile(doc)
         if ambiguous:
@@ -509,7 +512,7 @@ def compare_case(ctx, pq, case):
     if doc["ins"][0]["t"] in ("FockStateVector", "NumberState") and sim in ("purefock", "passive", "ffock"):
         ctx.c["phase_sensitive_inputs"] += 1
 
-    ref = run_mode(pq, doc, "numpy", extra, ledger=(sim == "purefock" and ambiguous))
+    ref = run_mode(pq, doc, "numpy", extra, ledger=ambiguous)
     ctx.count("runs_by_sim_mode", "%s/numpy" % sim)
     if "error" in ref:
         e = ref["error"]
@@ -526,11 +529,11 @@ def compare_case(ctx, pq, case):
     deviating = {}
     for mode in modes:
         compiled = mode in ("jax-jit", "tf-function-outer")
-        eager_ledger = sim == "purefock" and ambiguous and not compiled
-        if sim == "purefock" and ambiguous and compiled:
+        eager_ledger = bool(ambiguous) and not compiled
+        if ambiguous and compiled:
             ctx.c["ambiguous_skipped_compiled"] += 1
             continue
-        res = run_mode(pq, doc, mode, extra, ledger=eager_ledger)
+        res = run_mode(pq, doc, mode, extra, ledger=ambiguous if eager_ledger else None)
         ctx.count("runs_by_sim_mode", "%s/%s" % (sim, mode))
         results[mode] = res
         if "error" in res:
@@ -553,6 +556,9 @@ def compare_case(ctx, pq, case):
                 ctx.obs.add("ledger unavailable for an ambiguous program on %s" % mode)
                 continue
             bound = ref["b"] + res["b"]
+            if not bound <= 0.05:
+                ctx.c["ambiguous_trivial_bound"] += 1
+                continue
             ctx.c["max_bound_ambiguous_class"] = max(ctx.c["max_bound_ambiguous_class"], bound)
         devs = _compare_obs(ctx, sim, mode, robs, res["obs"], size, n_ins, bound, compiled)
         compared_modes.append(mode)
@@ -591,7 +597,7 @@ def _compare_obs(ctx, sim, mode, robs, obs, size, n_ins, bound, compiled):
         if bound > 0.0:
             # non-unique Euler decomposition: |psi_a - psi_b| <= b_a + b_b; probabilities 2b + b^2 (C01-B).
             # Moments of unbounded operators have no useful bound of this kind and are not compared.
-            if name == "state_vector":
+            if name in ("state_vector", "tensor_representation"):
                 tol += bound
             elif name == "fock_probabilities":
                 tol += 2 * bound + bound * bound
@@ -686,8 +692,8 @@ def _classify(ctx, pq, case, results, deviating, ambiguous, complex_gates, size,
                 ctx.c["polar_nonunitary"] += 1
             ctx.c["corrected_polar_reruns"] += 1
             compiled = m == "tf-function-outer"
-            led = ambiguous and not compiled
-            rer = run_mode(pq, doc, m, extra, fix_polar=True, ledger=led)
+            led = bool(ambiguous) and not compiled
+            rer = run_mode(pq, doc, m, extra, fix_polar=True, ledger=ambiguous if led else None)
             agree = False
             if "error" not in rer:
                 bound = 0.0
@@ -708,53 +714,63 @@ def _classify(ctx, pq, case, results, deviating, ambiguous, complex_gates, size,
 
 
 # ------------------------------------------------------------------------------ generators
-def _real_blocks(rng, n, rmax, degenerate):
+def _distinct_r(rng, n, rmax, gap=0.03):
+    while True:
+        r = rng.uniform(-rmax, rmax, size=n)
+        a = np.sort(np.abs(r))
+        if n == 1 or float(np.min(np.diff(a))) > gap:
+            return r
+
+
+def _blocks(rng, n, r, real):
     from vf.gen import matrices as M
 
-    o1 = M.haar_orthogonal(rng, n)
-    o2 = M.haar_orthogonal(rng, n)
-    r = rng.uniform(-rmax, rmax, size=n)
-    if degenerate and n > 1:
-        r[:] = r[0]
-    return (o1 @ np.diag(np.cosh(r)) @ o2).astype(complex), (o1 @ np.diag(np.sinh(r)) @ o2).astype(complex)
+    if real:
+        u1, u2 = M.haar_orthogonal(rng, n).astype(complex), M.haar_orthogonal(rng, n).astype(complex)
+    else:
+        u1, u2 = M.haar_unitary(rng, n), M.haar_unitary(rng, n)
+    return u1 @ np.diag(np.cosh(r)) @ u2, u1 @ np.diag(np.sinh(r)) @ u2.conj()
 
 
-def _purefock_gate(rng, name, d, cutoff, real_bias):
+def _purefock_gate(rng, name, d, cutoff, real_bias, ambiguous=False):
+    """Exact-class gates have a unique Euler decomposition (distinct squeezing parameters); ambiguous=True
+    produces Squeezing2 / degenerate GaussianTransform with small r (small ledger bound)."""
     from vf.gen import matrices as M
     from vf.gen import programs as G
 
     g = G.gate(rng, name, d, active_scale=0.25, disp_scale=0.4, cutoff=cutoff)
     if g is None:
         return None
+    real = bool(rng.random() < real_bias)
     if name == "Squeezing2":
-        k = rng.random()
-        g["p"]["r"] = float(rng.uniform(0.05, 0.25) * rng.choice([-1, 1]))
-        if k < real_bias:
-            g["p"]["phi"] = float(rng.choice([0.0, np.pi]))
-        else:
-            g["p"]["phi"] = float(rng.uniform(0.2, np.pi - 0.2) * rng.choice([-1, 1]))
+        g["p"]["r"] = float(rng.uniform(0.02, 0.06) * rng.choice([-1, 1]))
+        g["p"]["phi"] = float(rng.choice([0.0, np.pi])) if real else float(rng.uniform(0.2, np.pi - 0.2) * rng.choice([-1, 1]))
     elif name == "Squeezing":
         g["p"]["r"] = float(rng.uniform(0.05, 0.25) * rng.choice([-1, 1]))
         if rng.random() < 0.8:
             g["p"]["phi"] = float(rng.uniform(0.2, np.pi - 0.2) * rng.choice([-1, 1]))
     elif name == "GaussianTransform":
         k = len(g["m"])
-        degenerate = bool(rng.random() < 0.3)
-        if rng.random() < real_bias:
-            P, A = _real_blocks(rng, k, 0.25, degenerate)
+        if ambiguous:
+            if k < 2:
+                return None
+            r = np.full(k, float(rng.uniform(0.02, 0.06) * rng.choice([-1, 1])))
+            if k == 3 and rng.random() < 0.4:
+                r[-1] = 0.0
         else:
-            P, A = M.symplectic_blocks(rng, k, rmax=0.25, degenerate=degenerate)
+            r = _distinct_r(rng, k, 0.25)
+        P, A = _blocks(rng, k, r, real)
         g["p"] = {"passive": M.enc(P), "active": M.enc(A)}
     elif name == "QuadraticPhase":
         g["p"]["s"] = float(rng.uniform(0.05, 0.3) * rng.choice([-1, 1]))
     return g
 
 
-def _prep(rng, d, cutoff, vacuum_p=0.2):
+def _prep(rng, d, cutoff, nmax=None, vacuum_p=0.2):
     from vf.gen import programs as G
 
     k = rng.random()
-    nmax = min(3, cutoff - 1)
+    nmax = min(3, cutoff - 1) if nmax is None else nmax
     if k < vacuum_p:
         return {"t": "Vacuum", "m": None, "p": {}}
     if k < vacuum_p + 0.3:
@@ -762,17 +778,36 @@ def _prep(rng, d, cutoff, vacuum_p=0.2):
     return G.superposition(rng, d, nmax, terms=int(rng.integers(2, 4)))[0]
 
 
-PF_POOL = ["Interferometer", "Interferometer", "Beamsplitter", "Beamsplitter5050", "Phaseshifter", "MachZehnder", "Fourier",
-           "Squeezing", "Squeezing", "Squeezing2", "Squeezing2", "QuadraticPhase", "GaussianTransform", "GaussianTransform",
-           "Kerr", "CrossKerr", "CubicPhase", "Displacement", "PositionDisplacement", "MomentumDisplacement"]
+PF_PASSIVE = ["Interferometer", "Interferometer", "Beamsplitter", "Beamsplitter5050", "Phaseshifter", "MachZehnder", "Fourier"]
+PF_NONLINEAR = ["Kerr", "CrossKerr"]
+PF_SINGLE_ACTIVE = ["Squeezing", "Squeezing", "CubicPhase", "Displacement", "PositionDisplacement", "MomentumDisplacement"]
+PF_EULER = ["QuadraticPhase", "GaussianTransform", "GaussianTransform"]
 
 
-def gen_purefock(rng, d, cutoff, real_bias, max_gates=5):
-    ins = [_prep(rng, d, cutoff)]
-    for _ in range(int(rng.integers(1, max_gates + 1))):
-        g = _purefock_gate(rng, str(rng.choice(PF_POOL)), d, cutoff, real_bias)
-        if g is not None:
-            ins.append(g)
+def gen_purefock(rng, d, cutoff, real_bias, kind="exact", max_gates=5):
+    """kind: 'exact' (unique Euler decompositions), 'ambiguous' (one or two Squeezing2 / degenerate GaussianTransform with
+    small r among other gates), 'no-euler' (traceable by jax.jit / an outer tf.function)."""
+    ins = []
+    n = int(rng.integers(1, max_gates + 1))
+    if kind == "ambiguous" and d >= 2:
+        ins.append(_prep(rng, d, cutoff, nmax=min(2, cutoff - 1), vacuum_p=0.3))
+        slots = set(int(x) for x in rng.permutation(max(n, 2))[: int(rng.integers(1, 3))])
+        for j in range(max(n, 2)):
+            if j in slots:
+                g = _purefock_gate(rng, str(rng.choice(["Squeezing2", "Squeezing2", "GaussianTransform"])), d, cutoff, real_bias, ambiguous=True)
+            else:
+                g = _purefock_gate(rng, str(rng.choice(PF_PASSIVE + PF_NONLINEAR + PF_SINGLE_ACTIVE)), d, cutoff, real_bias)
+            if g is not None:
+                ins.append(g)
+    else:
+        ins.append(_prep(rng, d, cutoff))
+        pool = PF_PASSIVE + PF_NONLINEAR + PF_SINGLE_ACTIVE + (PF_EULER if kind != "no-euler" else [])
+        if kind == "no-euler":
+            pool = [x for x in pool if x != "MachZehnder"] + ["Squeezing", "Kerr"]
+        while len(ins) - 1 < n:
+            g = _purefock_gate(rng, str(rng.choice(pool)), d, cutoff, real_bias)
+            if g is not None:
+                ins.append(g)
     doc = {"sim": "purefock", "d": d, "config": {"cutoff": cutoff, "hbar": float(rng.choice([1.0, 2.0]))}, "ins": ins, "shots": 1}
     extra = {"quad_mode": int(rng.integers(0, d)), "quad_phi": float(rng.choice([0.0, 0.3, np.pi / 2]))}
     return doc, extra
@@ -871,27 +906,29 @@ SHAPES_PF = [(1, 5), (1, 7), (2, 4), (2, 5), (2, 6), (2, 7), (3, 3), (3, 4), (3,
 SHAPES_G = [(1, 6), (2, 4), (2, 5), (3, 3), (3, 4), (1, 4), (2, 3)]
 
 ENV = {"OPENBLAS_NUM_THREADS": "1", "OMP_NUM_THREADS": "1", "NUMBA_NUM_THREADS": "2", "TF_NUM_INTRAOP_THREADS": "2",
-       "TF_NUM_INTEROP_THREADS": "1", "XLA_FLAGS": "--xla_cpu_multi_thread_eigen=false intra_op_parallelism_threads=2"}
+       "TF_NUM_INTEROP_THREADS": "1", "XLA_FLAGS": "--xla_cpu_multi_thread_eigen=false"}
 
 
 def plan(tier, seed):
+    """Quick: total weight 16 (three TensorFlow-importing shards of weight 3 + 7 others)."""
     quick = tier == "quick"
     specs = []
-    i = 0
 
     def add(family, n, weight=1, **kw):
-        nonlocal i
         for _ in range(n):
+            i = len(specs)
             s = {"name": "%s-%d" % (family, i), "family": family, "shard": i, "env": dict(ENV), "weight": weight}
             s.update(kw)
             specs.append(s)
-            i += 1
 
-    add("purefock-tf", 3 if quick else 4, weight=3, count=400 if quick else 4000, budget=115 if quick else 780)
-    add("purefock-jax", 4 if quick else 4, count=400 if quick else 4000, budget=115 if quick else 780)
-    add("gaussian", 3 if quick else 3, count=400 if quick else 4000, budget=115 if quick else 780)
-    add("passive", 1, count=600 if quick else 6000, budget=100 if quick else 600)
-    add("fermionic", 2, count=400 if quick else 4000, budget=110 if quick else 700)
+    # budgets are CPU seconds of the shard process (coverage then does not depend on how busy the machine is);
+    # a wall-clock cap keeps the shard below the watchdog
+    cpu, wall = (150, 600) if quick else (800, 2400)
+    add("purefock-tf", 3 if quick else 4, weight=3, count=300 if quick else 3000, cpu=cpu, wall=wall)
+    add("purefock-jax", 3 if quick else 4, count=300 if quick else 3000, cpu=cpu, wall=wall)
+    add("gaussian", 2 if quick else 4, count=300 if quick else 3000, cpu=cpu, wall=wall)
+    add("passive", 1 if quick else 2, count=500 if quick else 5000, cpu=cpu * 0.8, wall=wall)
+    add("fermionic", 1 if quick else 2, count=300 if quick else 3000, cpu=cpu * 0.8, wall=wall)
     return specs
 
 
@@ -909,16 +946,17 @@ def run_shard(spec):
     fam = spec["family"]
     quick = spec["tier"] == "quick"
     t0 = time.time()
-    budget = float(spec["budget"])
     if fam == "purefock-tf":
         backend("tf")
-    if fam != "passive-numpy":
-        backend("jax")
+    backend("jax")
     count_perm_calls(ctx)
     t_import = time.time() - t0
-    ctx.obs.add("backend import took %.0f s in a %s shard" % (t_import, fam)) if t_import > 60 else None
+    if t_import > 60:
+        ctx.obs.add("backend import took more than 60 s in a %s shard (busy machine)" % fam)
     t0 = time.time()
-    n_shapes = 2 if quick else 4
+    c0 = time.process_time()
+    # every new (d, cutoff) costs JAX 5-30 s of one-off kernel compilation: few shapes per shard
+    n_shapes = 1 if quick else 3
     if fam in ("purefock-tf", "purefock-jax"):
         shapes = _shapes_for(rng, SHAPES_PF, n_shapes)
     elif fam == "gaussian":
@@ -926,7 +964,7 @@ def run_shard(spec):
     else:
         shapes = None
     for i in range(int(spec["count"])):
-        if time.time() - t0 > budget:
+        if time.process_time() - c0 > float(spec["cpu"]) or time.time() - t0 > float(spec["wall"]):
             ctx.obs.add("%s shard stopped by its time budget" % fam)
             break
         case = gen_case(rng, fam, i, shapes, quick)
@@ -939,16 +977,25 @@ def gen_case(rng, fam, i, shapes, quick):
     """Compiled modes on every k-th program only (each new program retraces)."""
     if fam == "purefock-tf":
         d, cutoff = shapes[i % len(shapes)]
-        doc, extra = gen_purefock(rng, d, cutoff, real_bias=0.6, max_gates=4)
         modes = ["tf", "jax"]
+        kind = "ambiguous" if (i % 5 == 3 and d >= 2) else "exact"
+        if i % 12 == 4:
+            kind = "no-euler"
+            modes.insert(1, "tf-function-outer")
         if i % 3 == 0:
             modes.insert(1, "tf-function")
-        if i % 8 == 4:
-            modes.insert(1, "tf-function-outer")
+        doc, extra = gen_purefock(rng, d, cutoff, real_bias=0.55, kind=kind, max_gates=3 if kind == "no-euler" else 4)
+        if i == 0 and not any(x["t"] in EULER_GATES for x in doc["ins"]):
+            # the first program of a TensorFlow shard always exercises the Euler / polar path with complex blocks
+            doc["ins"].append(_purefock_gate(rng, "QuadraticPhase", d, cutoff, 0.0))
     elif fam == "purefock-jax":
         d, cutoff = shapes[i % len(shapes)]
-        doc, extra = gen_purefock(rng, d, cutoff, real_bias=0.2)
-        modes = ["jax"] + (["jax-jit"] if i % 6 == 2 else [])
+        kind = "ambiguous" if (i % 5 == 3 and d >= 2) else "exact"
+        modes = ["jax"]
+        if i % 5 == 1:
+            kind = "no-euler"
+            modes.append("jax-jit")
+        doc, extra = gen_purefock(rng, d, cutoff, real_bias=0.15, kind=kind)
     elif fam == "gaussian":
         d, cutoff = shapes[i % len(shapes)]
         doc, extra = gen_gaussian(rng, d, cutoff)
